@@ -85,7 +85,7 @@ def gen(seed, tier, layouts):
                     continue
                 if f == "T" and not full:
                     continue
-                if big and f != "S":
+                if big and (f != "S" or k % 2):
                     continue
                 faults.append((f, 0))
             for f, t in faults:
